@@ -19,7 +19,8 @@ RULE = (
     "a plan = 1..6 sends at generated times (some after a failure, some after a later RSTACK) + for the k-th DATA "
     "write overall a peer reaction from {covering ACK, stale ACK, NAK, silence, ERROR(code), RSTACK(code)} delivered "
     "at f x (current acknowledgement timeout), f in {0, 0.25, 1-eps, 1, 1+eps, 0.6}; exhaustive part: all 6^5 reaction "
-    "sequences for one send at f=0.5 (and at every f in thorough). Non-trivial = at least one retransmission happened; "
+    "sequences for one send at f=0.5 (and at every f in thorough); the host's own reset requests (RST written) at generated "
+    "instants, enumerated for a link that failed by ERROR / silence / NAKs with sends before and after the RSTACK. Non-trivial = at least one retransmission happened; "
     "distinct by plan."
 )
 ASSUMPTIONS = [
@@ -106,6 +107,16 @@ async def scenario(loop, plan, log):
         tasks.append(asyncio.ensure_future(one(i, s)))
     for t_abs, code in plan.get("rstacks", []):
         loop.call_at(t_abs, deliver, ["RSTACK", code], refash.enc_rstack(code))
+
+    def host_reset():
+        # the host's own upper layer asks the NCP to reset (writes RST): a request is not the acknowledgement - a failed
+        # link stays failed, and silent, until the RSTACK has arrived
+        flush_spontaneous()
+        log.append(("hr", loop.time()))
+        proto.send_reset()
+
+    for t_abs in plan.get("host_resets", []):
+        loop.call_at(t_abs, host_reset)
     await asyncio.wait(tasks, timeout=plan.get("horizon", 400))
     flush_spontaneous()
     for i, t in enumerate(tasks):
@@ -302,6 +313,10 @@ def analyse(plan, log, r: Result):
     if len([1 for _, _, w in fail_pos]) and rstack_pos and any(p > fail_pos[0][0] for p, _ in rstack_pos):
         r.cls("recovered-by-rstack")
     r.nontrivial = retrans > 0
+    if plan.get("host_resets"):
+        r.cls("host-reset-request")
+        if any(e[0] == "hr" and failed_at(pos) for pos, e in enumerate(log)):
+            r.cls("host-reset-request-while-failed")
     for k, fi, _ in plan["reactions"][:sum(len(w) for w in writes.values())]:
         r.cls("react:" + k)
         if fi in (2, 3, 4):
@@ -332,7 +347,10 @@ def plans(draw):
     reactions = draw(st.lists(reaction, min_size=0, max_size=5 * n))
     rst = draw(st.lists(st.tuples(st.sampled_from([5.051, 20.017, 30.019, 45.023, 60.029]), st.sampled_from([0x0B, 0x02])).map(list),
                         max_size=2, unique_by=lambda x: x[0]))
-    return {"sends": sends, "reactions": reactions, "rstacks": sorted(rst)}
+    plan = {"sends": sends, "reactions": reactions, "rstacks": sorted(rst)}
+    if draw(st.integers(0, 2)) == 0:
+        plan["host_resets"] = sorted(draw(st.lists(st.sampled_from([0.3, 4.9, 15.0, 19.9, 25.0, 33.0, 44.0]), min_size=1, max_size=2, unique=True)))
+    return plan
 
 
 @st.composite
@@ -368,6 +386,22 @@ def _worker_exh(ctx, job):
             ctx.check(plan, check(plan), sample=(seq == [2, 3, 1, 2, 0]))
 
 
+def _worker_hostreset(ctx, job):
+    """The link fails (ERROR frame / budget used up by silence / by NAKs), the host asks for a reset, and sends are
+    submitted before and after the NCP's RSTACK (or the RSTACK never comes)."""
+    how, rstack = job
+    first = {"error": [["error", 1, 0x51]], "silence": [["none", 0, 0]] * 5, "nak": [["nak", 1, 0]] * 5,
+             "error-late": [["none", 0, 0], ["nak", 1, 0], ["error", 1, 0x52]]}[how]
+    for queued in (0, 1, 2):
+        for t_before in (20.0005, 20.5, 21.999):
+            for n_before in (1, 2):
+                sends = [{"at": 0.0, "len": 3}] + [{"at": 0.2 + 0.1 * q, "len": 1} for q in range(queued)]
+                sends += [{"at": round(t_before + 0.0003 * k, 4), "len": 2 + k} for k in range(n_before)]
+                sends += [{"at": 23.0, "len": 5}, {"at": 23.0, "len": 6}]
+                plan = {"sends": sends, "reactions": list(first), "rstacks": [[22.0, 0x0B]] if rstack else [], "host_resets": [20.0]}
+                ctx.check(plan, check(plan), sample=(queued == 1 and n_before == 1 and t_before == 20.5))
+
+
 def run(ctx):
     quick = ctx.tier == "quick"
     half = len(FS) - 1
@@ -375,5 +409,6 @@ def run(ctx):
     jobs = [(fi, [k]) for fi in fis for k in range(6)]
     ctx.parallel(_worker_exh, jobs)
     ctx.exhaustive["all 6^5 reaction sequences for one send (plus one queued send)"] = True
+    ctx.parallel(_worker_hostreset, [(how, rs) for how in ("error", "silence", "nak", "error-late") for rs in (True, False)])
     ctx.parallel(_worker_random, [600] * 16 if quick else [20000] * 16)
     ctx.parallel(_worker_drift, [60] * 16 if quick else [4000] * 16)
